@@ -797,4 +797,10 @@ def controls(chk):
     chk.control("E1", ("E1", "ctl_drop") in got, "discarded result of a function that can fail")
     chk.control("E2", ("E2", "ctl_swallow") in got, "if (ret) return 0")
     chk.control("E3", ("E3", "ctl_nocheck") in got, "malloc result dereferenced unchecked")
-    chk.control("silent-on-good", not any(fn == "ctl_good" for (_r, fn) in got), "correct function must not be reported")
+    rule_e4(sub, prog, em, "ctl", set())
+    rule_e5(sub, prog, em, "ctl", set())
+    got = {(o["rule"], o["function"]) for o in sub.obl if o["verdict"] == "VIOLATED"}
+    chk.control("E4", ("E4", "ctl_loop_overwrite") in got, "error result replaced by the next iteration's result")
+    chk.control("E5", ("E5", "ctl_collapse") in got, "tri-state result compared with == 0 only")
+    chk.control("silent-on-good", not any(fn in ("ctl_good", "ctl_loop_checked", "ctl_no_collapse") for (_r, fn) in got),
+                "correct functions must not be reported")
